@@ -125,6 +125,7 @@ class Exec:
                 ev.env[p['id']] = a
         ev.env['this->num32bitLiterals'] = KB.const(32, self.nlit)
         self._stmt(f, f['body'], ev, depth)
+        self.final_env = ev.env
         v = ev.env.get('this->num32bitLiterals')
         if v is not None and v.value() is not None:
             self.nlit = v.value()
@@ -145,6 +146,10 @@ class Exec:
             return self._stmt(f, s['t'] if c else s.get('e'), ev, depth)
         if k == 'Break':
             return 'break'
+        if k in ('For', 'While', 'Do', 'StaticAssert'):
+            if not any((c.get('name') or '').startswith('emit') or c.get('name') == 'memcpy' for c in astq.calls(s)):
+                return      # bookkeeping loops (marking every register as modified) emit nothing
+            raise AnalysisBroken('A64: a loop that emits code at %s' % loc(s, f))
         if k == 'Switch':
             cn = strip_all(s['c'])
             while cn['k'] == 'Cast' and type_info(cn.get('ty')) is None:
@@ -184,6 +189,14 @@ class Exec:
                 if w.w != 32:
                     w = w.resize(32, False)
                 self.words.append((w, loc(top, f)))
+                # the position argument is taken by reference and advanced by four bytes
+                if len(top['a']) >= 3:
+                    pa = strip_all(top['a'][2])
+                    while pa['k'] == 'Cast':
+                        pa = strip_all(pa['e'])
+                    if pa['k'] == 'Ref' and pa.get('id') in ev.env and ev.env[pa['id']].value() is not None:
+                        cur = ev.env[pa['id']]
+                        ev.env[pa['id']] = KB.const(cur.w, cur.value() + 4)
                 return
             if top.get('fn') and top['fn'].startswith(self.cls + '::emit') and self.F.has_func(top['fn']):
                 g = self.F.func(top['fn'])
@@ -197,6 +210,15 @@ class Exec:
                 self.words += sub.words
                 self.nlit = sub.nlit
                 ev.env['this->num32bitLiterals'] = KB.const(32, self.nlit)
+                # integer parameters taken by reference (the code position) flow back into the caller's variable
+                for prm, a in zip(g['params'], top['a']):
+                    if (prm.get('ty') or '').rstrip().endswith('&') and type_info(prm['ty']) is not None:
+                        pa = strip_all(a)
+                        while pa['k'] == 'Cast':
+                            pa = strip_all(pa['e'])
+                        fin = getattr(sub, 'final_env', {}).get(prm['id'])
+                        if pa['k'] == 'Ref' and pa.get('id') is not None and fin is not None:
+                            ev.env[pa['id']] = fin
                 return
             raise AnalysisBroken('A64-IMMHELP: unexpected call %s at %s' % (show(top)[:60], loc(top, f)))
         if top['k'] == 'Assign':
